@@ -5,6 +5,7 @@
 package gpack
 
 import (
+	"strconv"
 	"container/list"
 	"fmt"
 	"math"
@@ -323,6 +324,14 @@ func TxRecord(s *rfl.Stream) *service.TxRecord {
 		r.Fields = value.NewMapValue()
 	default:
 		r.Fields = mapValue(s)
+	}
+	if s.Intn(40) == 0 {
+		// the number of custom fields travels in one byte: up to 255 of them
+		r.Fields = value.NewMapValue()
+		n := []int{253, 254, 255}[s.Intn(3)]
+		for i := 0; i < n; i++ {
+			r.Fields.PutLong("f"+strconv.Itoa(i), int64(i))
+		}
 	}
 	if s.Intn(3) == 0 {
 		r.Mtid = 0
